@@ -777,6 +777,84 @@ theorem current_run (evs : List REv) : ∀ (s : RSt), (rrun s evs).1.stopped = f
     simp_all
 
 
+/-- `linked` is sent by the `Linked` handler (active) to live members of `awaiting_linked`, or at once to a
+consumer that attaches when the link is already up. -/
+theorem linked_source {s : RSt} (ev : REv) {i : Nat} (h : (i, Note.linked) ∈ (rstep s ev).2) :
+    (ev = .msg .linked ∧ s.stopped = false ∧ s.timer = false ∧ ∃ x ∈ s.aLinked, x.id = i ∧ s.alive x = true) ∨
+    (∃ y, ev = .attach y ∧ y.id = i ∧ s.dl ≠ .init) := by
+  cases ev with
+  | dropReader d => simp [rstep] at h
+  | attach y =>
+    simp only [rstep] at h; split at h
+    · simp at h
+    · unfold onAttach at h; split at h
+      · simp at h
+      · rename_i hdl
+        split at h
+        · simp only [List.mem_singleton, Prod.mk.injEq] at h
+          exact Or.inr ⟨y, rfl, h.1.symm, by intro hh; exact hdl hh⟩
+        · simp at h
+  | stop =>
+    simp only [rstep] at h; split at h
+    · simp at h
+    · have := (mem_notesTo h).2; simp at this
+  | msg m =>
+    simp only [rstep] at h; split at h
+    · simp at h
+    · rename_i hst
+      cases m with
+      | linked =>
+        simp only [onMsg] at h; unfold onLinked at h; split at h
+        · simp at h
+        · rename_i htm
+          obtain ⟨x, hx, hi⟩ := (mem_notesTo h).1
+          exact Or.inl ⟨rfl, by simpa using hst, by simpa using htm, x, (List.mem_filter.mp hx).1, hi,
+            (List.mem_filter.mp hx).2⟩
+      | synced =>
+        simp only [onMsg] at h; unfold onSynced at h; split at h
+        · simp at h
+        · have := (mem_notesTo h).2
+          split at this <;> simp at this
+      | unlinked => have := (mem_notesTo (by simpa [onMsg, unlinkAll] using h)).2; simp at this
+      | event b =>
+        simp only [onMsg] at h; unfold dispatch at h; split at h
+        · simp at h
+        · simp only [List.mem_append] at h
+          rcases h with h | h
+          · have := (mem_notesTo h).2; simp at this
+          · split at h
+            · simp at h
+            · have := (mem_notesTo h).2; simp at this
+      | badEvent =>
+        simp only [onMsg] at h; split at h
+        · have := (mem_notesTo (by simpa [unlinkAll] using h)).2; simp at this
+        · unfold dispatch at h; split at h
+          · simp at h
+          · simp only [List.mem_append] at h
+            rcases h with h | h
+            · have := (mem_notesTo h).2; simp at this
+            · split at h
+              · simp at h
+              · have := (mem_notesTo h).2; simp at this
+
+/-- A consumer that did not ask for SYNC and is sent `linked` by the `Linked` handler is registered afterwards. -/
+theorem linked_registers_nosync {c : Nat} {s : RSt} {p : Phase} {att : Bool} (h : PInv c s p att)
+    (hl : Note.linked ∈ logOf c (rstep s (.msg .linked)).2) :
+    ∃ x, (x.sync = false → RegAt c (rstep s (.msg .linked)).1 x) ∧ x ∈ s.aLinked ∧ x.id = c
+      ∧ (rstep s (.msg .linked)).1.alive x = true ∧ (rstep s (.msg .linked)).1.stopped = false := by
+  rcases linked_source _ (mem_logOf.mp hl) with ⟨_, hst, htm, y, hy, hyi, hya⟩ | ⟨y, hy, _⟩
+  · have hsel : y ∈ sel c s.aLinked := List.mem_filter.mpr ⟨hy, by simp [hyi]⟩
+    rcases h with ⟨h1, _, _, _⟩ | ⟨_, x, h1, h2, h3, _⟩ | ⟨_, x, h1, _, _, _⟩ | ⟨_, x, h1, _, _, _⟩ <;>
+      try (rw [h1] at hsel; simp at hsel)
+    have hxy : y = x := hsel
+    subst hxy
+    refine ⟨y, ?_, hy, hyi, ?_, ?_⟩
+    · intro hns
+      simp [rstep, hst, onMsg, onLinked, htm, RegAt, sel_append, sel_filter, h1, h2, h3, hya, hns]
+    · simpa [rstep, hst, onMsg, onLinked, htm, RSt.alive] using hya
+    · simp [rstep, hst, onMsg, onLinked, htm]
+  · cases hy
+
 theorem abort_run (s : RSt) (evs : List REv) : (rrun s evs).1.abort = s.abort := by
   induction evs generalizing s with
   | nil => rfl
